@@ -29,29 +29,27 @@ from checklib import core
 
 LEVEL = "model_checking"
 SPECDIR = os.path.join(core.SPEC, "buffer")
-KINDS = ["vec", "arrayvec", "slice", "sliceref"]
+KINDS = ["vec", "arrayvec", "slice", "sliceref", "raw"]
 
 
 # ----------------------------------------------------------------------------- helpers
 
-WALKS = {"quick": ["MC_quick"], "thorough": ["Walk_deep", "Walk_wide"]}
+# families of alphabets (spec/buffer/gen_cfgs.py): every one is model-checked (invariants, action properties) and walked
+WALKS = {"quick": ["MC_quick", "Q_readers", "Q_stores", "Q_users"],
+         "thorough": ["Walk_deep", "Walk_wide", "Q_readers", "Q_stores", "Q_users"]}
+MODELS = {"quick": [], "thorough": ["MC_thorough"]}
+ACTION_NAMES = ["setup", "open", "write", "extend", "advance", "scribble", "close", "closeinit", "unwind", "read", "readclose",
+                "overadvance", "touch", "reopen", "rawdirty", "user", "pk", "grow", "final"]
+_LOCK = threading.Lock()
 CRASH_SIGNALS = (-4, -6, -7, -8, -11, 132, 134, 135, 136, 139)   # SIGILL, SIGABRT, SIGBUS, SIGFPE, SIGSEGV
 
 
-def _export_cfg(ctx, name, kind):
-    """Derive the export config (one backing store) from a model-checking config."""
+def _export_cfg(ctx, name):
+    """The family's config plus the export of every transition (invariants and action properties stay on:
+    the same TLC run model-checks the family and feeds the walker)."""
     src = open(os.path.join(SPECDIR, "%s.cfg" % name)).read()
-    out = []
-    for line in src.splitlines():
-        if line.strip().startswith("MCKinds"):
-            out.append('  MCKinds = {"%s"}' % kind)
-        elif line.startswith("INVARIANTS") or line.startswith("PROPERTIES"):
-            continue
-        else:
-            out.append(line)
-    out.append("ACTION_CONSTRAINT Export")
-    p = os.path.join(ctx.workdir, "Exp_%s_%s.cfg" % (name, kind))
-    open(p, "w").write("\n".join(out) + "\n")
+    p = os.path.join(ctx.workdir, "Exp_%s.cfg" % name)
+    open(p, "w").write(src + "ACTION_CONSTRAINT Export\n")
     return p
 
 
@@ -106,88 +104,88 @@ def _key_of_event(ev):
 
 # ----------------------------------------------------------------------------- direction A
 
-def _direction_a(ctx, bins, tier, name):
+def _direction_a(ctx, bins, tier, name, sem=None):
+    """One TLC run per family: model-checks it (invariants, action properties) and exports the graph to the walker."""
     depth = _max_ops(name)
-    results = {}
-
-    def work(kind):
-        cfg = _export_cfg(ctx, name, kind)
-        cover = os.path.join(ctx.workdir, "cover_%s_%s.ndjson" % (name, kind))
-        cmd = [os.path.join(bins, "vh-buffer"), "graph", "--depth", str(depth), "--cover", cover,
-               "--threads", "2", "--max-paths", "40000000"]
-        try:
-            results[kind] = core.tlc_pipe("MC_Buffer.tla", cfg, cmd, cwd=SPECDIR,
-                                          timeout=240 if tier == "quick" else 2400)
-        except Exception as e:  # noqa
-            results[kind] = e
-
-    threads = [threading.Thread(target=work, args=(k,)) for k in KINDS]
+    cfg = _export_cfg(ctx, name)
+    cover = os.path.join(ctx.workdir, "cover_%s.ndjson" % name)
+    cmd = [os.path.join(bins, "vh-buffer"), "graph", "--depth", str(depth), "--cover", cover,
+           "--threads", "4" if tier == "quick" else "8", "--max-paths", "120000000"]
     t0 = time.time()
-    for t in threads:
-        t.start()
-    for t in threads:
-        t.join()
-    tot = {"paths": 0, "steps": 0, "edges": 0, "states": 0, "nontrivial": 0, "covered": 0, "det_edges": 0}
-    for kind in KINDS:
-        r = results[kind]
-        if isinstance(r, Exception):
-            raise r
-        tres, rc, out = r
+    if sem is not None:
+        sem.acquire()
+    try:
+        tres, rc, out = core.tlc_pipe("MC_Buffer.tla", cfg, cmd, cwd=SPECDIR, timeout=1200 if tier == "quick" else 3000)
+    finally:
+        if sem is not None:
+            sem.release()
+
+    def account():
         if rc != 0:
             if rc in CRASH_SIGNALS:
                 # which sequence? walk again single-threaded with a crash journal (the plan is written before it is run)
-                jpath = os.path.join(ctx.workdir, "journal_%s_%s.json" % (name, kind))
+                jpath = os.path.join(ctx.workdir, "journal_%s.json" % name)
                 plan = None
                 try:
-                    core.tlc_pipe("MC_Buffer.tla", _export_cfg(ctx, name, kind),
+                    core.tlc_pipe("MC_Buffer.tla", cfg,
                                   [os.path.join(bins, "vh-buffer"), "graph", "--depth", str(depth), "--journal", jpath],
-                                  cwd=SPECDIR, timeout=1200)
+                                  cwd=SPECDIR, timeout=2400)
                     plan = json.load(open(jpath))
                 except Exception as e:  # noqa
                     core.log("[C19] crash journal failed: %s" % e)
+                kind = (plan or [{}])[0].get("kind", "?")
                 ctx.report("crash:graph:%s" % kind,
-                           "the replay process died with code %s while executing a TLC-generated sequence on the %s store "
-                           "(memory corruption or abort inside the library): %s" % (rc, kind, json.dumps(plan)[:600]),
+                           "the replay process died with code %s while executing a TLC-generated sequence of family %s on the %s store "
+                           "(memory corruption or abort inside the library): %s" % (rc, name, kind, json.dumps(plan)[:600]),
                            {"kind": kind, "rc": rc, "plan": plan, "crash": True})
-                continue
-            raise core.ToolError("vh-buffer graph (%s) exited with %s: %s" % (kind, rc, out[-500:]))
+                return None
+            raise core.ToolError("vh-buffer graph (%s) exited with %s: %s" % (name, rc, out[-500:]))
         try:
             s = json.loads(out.strip().splitlines()[-1])
         except Exception:
-            raise core.ToolError("vh-buffer graph (%s): no summary: %s" % (kind, out[-500:]))
-        if "error" in s or not s.get("paths"):
-            raise core.ToolError("graph export (%s) unusable: %s %s" % (kind, s.get("error"), s.get("tlc_tail", [])[-5:]))
+            raise core.ToolError("vh-buffer graph (%s): no summary: %s" % (name, out[-500:]))
         tail = "\n".join(s.get("tlc_tail", []))
-        if "Model checking completed" not in tail:
-            raise core.ToolError("TLC export (%s) did not finish: %s" % (kind, tail[-600:]))
-        tot["paths"] += s["paths"]
-        tot["steps"] += s["steps"]
-        tot["edges"] += s["edges"]
-        tot["states"] += s["states"]
-        tot["nontrivial"] += s["nontrivial_paths"]
-        tot["covered"] += s["edges_covered"]
-        tot["det_edges"] += s["det_edges"]
-        ctx.add_run("graph walk %s %s" % (name, kind), states=s["states"], edges=s["edges"], paths=s["paths"],
-                    steps=s["steps"], mismatches=s["mismatch_count"], drift=s["drift_count"],
-                    edges_covered=s["edges_covered"], det_edges=s["det_edges"])
+        viol = re.search(r"Error: (Invariant (\w+) is violated|Action property (\w+) is violated)", tail)
+        if viol:
+            what = viol.group(2) or viol.group(3)
+            ctx.report("spec:%s" % what, "Buffer.tla itself violates %s in family %s (design error)" % (what, name), {"tlc": tail[-3000:]})
+            return None
+        if "error" in s or not s.get("paths"):
+            raise core.ToolError("graph export (%s) unusable: %s %s" % (name, s.get("error"), s.get("tlc_tail", [])[-5:]))
+        if "Model checking completed. No error has been found" not in tail:
+            raise core.ToolError("TLC (%s) did not finish cleanly: %s" % (name, tail[-600:]))
+        m = re.search(r"(\d+) states generated, (\d+) distinct states found", tail)
+        if m:
+            ctx.coverage["states"] += int(m.group(2))
+            ctx.coverage["transitions"] += int(m.group(1))
+        ctx.add_run("MC_Buffer %s: model check (invariants InitLeSpare Nested Contents OwnerBytes Untouched, action properties Frame "
+                    "FrameTop WriteBack Refusal SliceReported RefusedCounts UserCounts) + graph walk" % name,
+                    distinct=int(m.group(2)) if m else None, generated=int(m.group(1)) if m else None,
+                    states=s["states"], edges=s["edges"], paths=s["paths"], steps=s["steps"], mismatches=s["mismatch_count"],
+                    drift=s["drift_count"], edges_covered=s["edges_covered"], det_edges=s["det_edges"],
+                    actions=s.get("actions", []), wall_s=round(time.time() - t0, 1))
         for smp in s.get("samples", [])[:1]:
             ctx.sample(smp)
-        for m in s.get("mismatches", []):
-            n = s["mismatch_keys"].get(m["key"], 1)
-            ctx.report(_norm(m["key"]),
-                       "%s store: step %d (%s) of a TLC-generated sequence: specification expects %s, the code did %s "
-                       "(%d sequences fail this way)" % (kind, m["step"], json.dumps(m["act"]), json.dumps(m["expected"]),
-                                                         json.dumps(m["observed"]), n),
-                       {"plan": m["plan"], "step": m["step"], "expected": m["expected"], "observed": m["observed"]})
+        for mm in s.get("mismatches", []):
+            n = s["mismatch_keys"].get(mm["key"], 1)
+            kind = (mm["plan"] or [{}])[0].get("kind", "?")
+            ctx.report(_norm(mm["key"]),
+                       "%s store (%s): step %d (%s) of a TLC-generated sequence: specification expects %s, the code did %s "
+                       "(%d sequences fail this way)" % (kind, name, mm["step"], json.dumps(mm["act"]), json.dumps(mm["expected"]),
+                                                         json.dumps(mm["observed"]), n),
+                       {"plan": mm["plan"], "step": mm["step"], "expected": mm["expected"], "observed": mm["observed"]})
         for key, n in s.get("drift_keys", {}).items():
-            ctx.report_drift("%s store: %d sequences follow a step the property allows but the detailed specification "
-                             "does not (%s)" % (kind, n, key))
-    ctx.coverage["evaluations"] += tot["paths"]
-    ctx.coverage["distinct_nontrivial"] += tot["nontrivial"]
-    ctx.coverage["transitions_replayed_on_impl"] = ctx.coverage.get("transitions_replayed_on_impl", 0) + tot["steps"]
-    ctx.add_run("direction A total " + name, wall_s=round(time.time() - t0, 1), **tot)
-    core.log("[C19] direction A %s: %s in %.0fs" % (name, tot, time.time() - t0))
-    return tot
+            ctx.report_drift("%s: %d sequences follow a step the property allows but the detailed specification "
+                             "does not (%s)" % (name, n, key))
+        ctx.coverage["evaluations"] += s["paths"]
+        ctx.coverage["distinct_nontrivial"] += s["nontrivial_paths"]
+        ctx.coverage["transitions_replayed_on_impl"] = ctx.coverage.get("transitions_replayed_on_impl", 0) + s["steps"]
+        core.log("[C19] %s: %s states, %s paths, %s steps, %d mismatches in %.0fs" % (
+            name, s["states"], s["paths"], s["steps"], s["mismatch_count"], time.time() - t0))
+        return s
+
+    with _LOCK:
+        return account()
 
 
 # ----------------------------------------------------------------------------- direction B
@@ -260,27 +258,47 @@ def _binding_selftest(ctx, bins):
 
 # ----------------------------------------------------------------------------- Miri
 
+RD_NAMES = ["slice", "mutref", "boxed", "bufreader", "file", "empty", "repeat", "take", "short", "chain", "err"]
+
+
+def _rd(a):
+    rd = a.get("rd") or {"k": "slice", "j": 0, "bs2": []}
+    return "%d %d %d %s" % (RD_NAMES.index(rd["k"]), rd.get("j", 0), len(rd.get("bs2", [])), " ".join(map(str, rd.get("bs2", []))))
+
+
 def _compact(plan):
     """JSON plan -> the compact line format of `vh-buffer run-lite` (no JSON inside Miri)."""
     parts = []
+    nums = lambda xs: " ".join(map(str, xs))
     for a in plan:
         k = a["a"]
         if k == "setup":
-            parts.append("S %s %d %d %s" % (a["kind"], a["cap"], a["len0"], " ".join(map(str, a["mem0"]))))
+            parts.append("S %s %d %d %s" % (a["kind"], a["cap"], a["len0"], nums(a["mem0"])))
         elif k == "open":
-            parts.append("O " + " ".join(map(str, a["ks"])))
+            parts.append("O %d %s" % (["with", "manual", "packer"].index(a.get("via", "with")), nums(a["ks"])))
         elif k == "extend":
-            parts.append("E %d %s" % (["exact", "nohint", "under", "over"].index(a["it"]), " ".join(map(str, a["bs"]))))
+            parts.append("E %d %s" % (["exact", "nohint", "under", "over"].index(a["it"]), nums(a["bs"])))
+        elif k == "pk":
+            parts.append("P %d %d %s" % (["raw", "rest", "string", "int", "data"].index(a["op"]), a["v"], nums(a["bs"])))
         elif k == "readclose":
-            parts.append("Q %d %s" % (a["claim"], " ".join(map(str, a["bs"]))))
+            parts.append("Q %d %s %s" % (a["claim"], _rd(a), nums(a["bs"])))
         elif k == "overadvance":
             parts.append("V %d" % a["n"])
+        elif k == "rawdirty":
+            parts.append("D %d" % a["n"])
+        elif k == "reopen":
+            parts.append("N")
+        elif k == "grow":
+            parts.append("G %d %s" % (a["cap"], nums(a["tail"])))
+        elif k == "user":
+            parts.append("Y %d %d %d %s %s" % (["huffd", "huffc", "strbytes", "feed"].index(a["who"]), 1 if a.get("ret", True) else 0,
+                                               len(a["bs"]), nums(a["bs"]), nums(a["ks"])))
         elif k == "touch":
-            parts.append("T " + " ".join(map(str, a["ks"])))
+            parts.append("T " + nums(a["ks"]))
         elif k in ("write", "advance", "scribble"):
-            parts.append({"write": "W", "advance": "A", "scribble": "X"}[k] + " " + " ".join(map(str, a["bs"])))
+            parts.append({"write": "W", "advance": "A", "scribble": "X"}[k] + " " + nums(a["bs"]))
         elif k == "read":
-            parts.append("R %d %s %s" % (len(a["bs"]), " ".join(map(str, a["bs"])), " ".join(map(str, a["ks"]))))
+            parts.append("R %s %d %s %s" % (_rd(a), len(a["bs"]), nums(a["bs"]), nums(a["ks"])))
         else:
             parts.append({"close": "C", "closeinit": "I", "unwind": "U", "final": "F"}[k])
     return ";".join(parts)
@@ -292,11 +310,10 @@ def _miri(ctx, budget_s=420):
     hd = core._harness_dir()
     plans = []
     for name in WALKS[ctx.tier]:
-        for kind in KINDS:
-            p = os.path.join(ctx.workdir, "cover_%s_%s.ndjson" % (name, kind))
-            if os.path.exists(p):
-                lines = [l for l in open(p).read().splitlines() if l.strip()]
-                plans.append(lines)
+        p = os.path.join(ctx.workdir, "cover_%s.ndjson" % name)
+        if os.path.exists(p):
+            lines = [l for l in open(p).read().splitlines() if l.strip()]
+            plans.append(lines)
     if not plans:
         ctx.assumptions.append("Miri step skipped: no cover plans")
         return
@@ -383,23 +400,46 @@ def run(ctx):
         "MC_Buffer for each backing store, capacity and pre-existing length of the config, each executed on the real "
         "API; distinct by construction (different operation sequences); counted non-trivial when at least one operation "
         "carries >= 1 byte; evaluations additionally counts the events of the recorded random traces (direction B)")
-    # 1. model checking of the bounded instance
-    res = core.run_tlc("MC_Buffer.tla", "MC_%s.cfg" % tier, cwd=SPECDIR, workers=4,
-                       timeout=300 if tier == "quick" else 1200, coverage=True)
-    ctx.add_states(res, "MC_Buffer %s: invariants InitLeSpare Nested Contents OwnerBytes Untouched, "
-                        "action properties Frame WriteBack Refusal SliceReported RefusedCounts" % tier)
-    if not res.ok:
-        if res.violated:
-            ctx.report("spec:%s" % res.violated, "Buffer.tla itself violates %s (design error)" % res.violated, {"tlc": res.out[-3000:]})
-            return
-        raise core.ToolError("TLC failed on MC_Buffer: %s" % (res.error or res.out[-500:]))
-    zero = [a for a in res.zero_actions if a.startswith("N")]
-    if zero:
-        raise core.ToolError("vacuous model-checking config: actions never taken: %s" % zero)
+    # 1. + 2. every family: TLC model-checks it and exports its graph, the walker replays every path on the real code
+    sums = {}
+    errs = []
+    sem = threading.Semaphore(4 if tier == "quick" else 2)
+
+    def fam(name):
+        try:
+            sums[name] = _direction_a(ctx, bins, tier, name, sem)
+        except Exception as e:  # noqa
+            errs.append(e)
+
+    ths = [threading.Thread(target=fam, args=(n,)) for n in WALKS[tier]]
+    for t in ths:
+        t.start()
+    for t in ths:
+        t.join()
+    if errs:
+        raise errs[0]
+    seen = set()
+    for name, s in sums.items():
+        if s:
+            seen |= set(s.get("actions", []))
+    never = [a for a in ACTION_NAMES if a not in seen]
+    if never and all(sums.get(n) for n in WALKS[tier]):
+        raise core.ToolError("vacuous configs: operations never taken in any family: %s" % never)
     ctx.coverage["exhaustive"] = True
-    # 2. direction A
-    for name in WALKS[tier]:
-        _direction_a(ctx, bins, tier, name)
+    if tier == "thorough":
+        # the large instance is model-checked only (too many paths to walk)
+        for name in MODELS[tier]:
+            res = core.run_tlc("MC_Buffer.tla", "%s.cfg" % name, cwd=SPECDIR, workers=8, timeout=1800, coverage=True)
+            ctx.add_states(res, "MC_Buffer %s (model check only)" % name)
+            if not res.ok:
+                if res.violated:
+                    ctx.report("spec:%s" % res.violated, "Buffer.tla itself violates %s in %s (design error)" % (res.violated, name),
+                               {"tlc": res.out[-3000:]})
+                    return
+                raise core.ToolError("TLC failed on MC_Buffer %s: %s" % (name, res.error or res.out[-500:]))
+            zero = [a for a in res.zero_actions if a.startswith("N")]
+            if zero:
+                raise core.ToolError("vacuous model-checking config %s: actions never taken: %s" % (name, zero))
     # 3. direction B
     _direction_b(ctx, bins, tier)
     ctx.assumptions += [
